@@ -41,29 +41,110 @@ def dims_of(nd):
     return ["x", "y", "z"][:nd] if nd <= 3 else [f"x{a}" for a in range(nd)]
 
 
+DTYPES = {"float64": np.float64, "float32": np.float32, "int32": np.int32, "int64": np.int64, "uint8": np.uint8,
+          "int8": np.int8, "complex": np.complex128}
+ARG_CHANGED = []     # descriptions of caller-supplied containers that an operation modified
+
+
 def build_mesh(c):
     n = c["n"]
-    cell = [float(F(x)) for x in c["cell"]]
-    p1 = [float(F(x)) for x in c["p1"]]
+    cell = [F(x) for x in c["cell"]]
+    p1 = [F(x) for x in c["p1"]]
     p2 = [a + k * h for a, k, h in zip(p1, n, cell)]
+    if c.get("intcorners") and all(v.denominator == 1 for v in p1 + p2):
+        p1 = [int(v) for v in p1]                 # integer-typed corners (the cell may be fractional)
+        p2 = [int(v) for v in p2]
+        if c["intcorners"] == "array":
+            p1, p2 = np.array(p1, dtype=np.int64), np.array(p2, dtype=np.int64)
+    else:
+        p1 = [float(v) for v in p1]
+        p2 = [float(v) for v in p2]
+    cellf = [float(x) for x in cell]
     kw = {}
     if c.get("sub"):
         lo, sh = c["sub"]
-        q1 = [a + o * h for a, o, h in zip(p1, lo, cell)]
-        q2 = [a + (o + s) * h for a, o, s, h in zip(p1, lo, sh, cell)]
-        kw["subregions"] = {"blk": df.Region(p1=q1, p2=q2)}
+        q0 = [float(F(x)) for x in c["p1"]]
+        q1 = [a + o * h for a, o, h in zip(q0, lo, cellf)]
+        q2 = [a + (o + s_) * h for a, o, s_, h in zip(q0, lo, sh, cellf)]
+        kw["subregions"] = {"blk": df.Region(p1=q1, p2=q2, dims=c.get("dims"))}
     if c.get("bc"):
         kw["bc"] = c["bc"]
-    return df.Mesh(region=df.Region(p1=p1, p2=p2), n=n, **kw)
+    rkw = {}
+    if c.get("dims"):
+        rkw["dims"] = c["dims"]
+    if c.get("units"):
+        rkw["units"] = c["units"]
+    return df.Mesh(region=df.Region(p1=p1, p2=p2, **rkw), n=n, **kw)
 
 
 def build_leaf(mesh, n, lf):
     nv = lf["nvdim"]
     vals = np.array([float(F(x)) for x in lf["vals"]], dtype=float).reshape(*n, nv)
-    if lf.get("cplx"):
+    dt = lf.get("dtype")
+    if lf.get("cplx") or dt == "complex":
         vals = vals + 1j * np.roll(vals, 1, axis=0) * 0.5
+    elif dt in ("uint8",):
+        vals = np.abs(vals).astype(DTYPES[dt])
+    elif dt:
+        vals = vals.astype(DTYPES[dt])
     mask = np.array(lf["mask"], dtype=bool).reshape(*n)
-    return df.Field(mesh, nvdim=nv, value=vals, valid=mask, dtype=vals.dtype)
+    kw = {}
+    if lf.get("vdims"):
+        kw["vdims"] = list(lf["vdims"])
+    if lf.get("vmap"):
+        kw["vdim_mapping"] = {k: v for k, v in lf["vmap"]}          # insertion order as given (may differ from vdims)
+    if "unit" in lf:
+        kw["unit"] = lf["unit"]
+    return df.Field(mesh, nvdim=nv, value=vals, valid=mask, dtype=vals.dtype, **kw)
+
+
+def build_leaves(c):
+    """operands of an expr case; with own_mesh every operand gets its own (equal) mesh object"""
+    n = c["n"]
+    if c.get("own_mesh"):
+        return [build_leaf(build_mesh(c), n, lf) for lf in c["leaves"]]
+    mesh = build_mesh(c)
+    return [build_leaf(mesh, n, lf) for lf in c["leaves"]]
+
+
+def snap_mesh(m):
+    return dict(pmin=[F(float(x)) for x in m.region.pmin], pmax=[F(float(x)) for x in m.region.pmax],
+                n=[int(k) for k in m.n], bc=m.bc, dims=tuple(m.region.dims), units=tuple(m.region.units),
+                sub={k: ([F(float(x)) for x in r.pmin], [F(float(x)) for x in r.pmax]) for k, r in m.subregions.items()})
+
+
+def snap_field(f):
+    """everything an operation must leave alone on an operand"""
+    return dict(values=f.array.tobytes(), dtype=str(f.array.dtype), shape=f.array.shape, valid=f.valid.tobytes(),
+                vdtype=str(f.valid.dtype), vshape=f.valid.shape,
+                vdims=None if f.vdims is None else list(f.vdims), vmap=list(f.vdim_mapping.items()), unit=f.unit,
+                nvdim=int(f.nvdim), mesh=snap_mesh(f.mesh), ids=(id(f.mesh), id(f.valid), id(f.array)))
+
+
+def wrap_int(v, ty):
+    return {None: int, "i32": np.int32, "i64": np.int64, "u8": np.uint8, "u16": np.uint16, "i8": np.int8}[ty](v)
+
+
+def wrap_seq(vals, cont):
+    if cont == "list":
+        return list(vals)
+    if cont == "array":
+        return np.array(vals)
+    return tuple(vals)
+
+
+def checked(desc, containers, fn):
+    """run fn(); every caller-supplied container must be unchanged afterwards"""
+    import copy
+    before = [copy.deepcopy(x) for x in containers]
+    out = fn()
+    for a, b in zip(containers, before):
+        same = (np.array_equal(np.asarray(a, dtype=object), np.asarray(b, dtype=object))
+                if not isinstance(a, dict) else
+                (list(a.keys()) == list(b.keys()) and all(np.array_equal(a[k], b[k]) for k in a)))
+        if not same:
+            ARG_CHANGED.append(desc)
+    return out
 
 
 def id_field(mesh):
@@ -119,6 +200,11 @@ def apply_un(x, name, p):
         else:
             other = float(v)
         o = p["op"]
+        if isinstance(other, (list, np.ndarray)):
+            return checked("scalar-operand", [other], lambda: {
+                "add": lambda: x + other, "radd": lambda: x.__radd__(other), "sub": lambda: x - other,
+                "rsub": lambda: x.__rsub__(other), "mul": lambda: x * other, "rmul": lambda: x.__rmul__(other),
+                "div": lambda: x / other, "rdiv": lambda: x.__rtruediv__(other), "pow": lambda: x ** other}[o]())
         return {"add": lambda: x + other, "radd": lambda: other + x if k != "array" else x.__radd__(other),
                 "sub": lambda: x - other, "rsub": lambda: other - x if k != "array" else x.__rsub__(other),
                 "mul": lambda: x * other, "rmul": lambda: other * x if k != "array" else x.__rmul__(other),
@@ -177,37 +263,55 @@ def apply_bin(x, y, name, p):
     raise KeyError(name)
 
 
+def coord(v, ty):
+    if ty == "f32":
+        return np.float32(v)
+    if ty == "f64":
+        return np.float64(v)
+    if ty == "int" and float(v).is_integer():
+        return int(v)
+    return float(v)
+
+
 def apply_map(x, name, p):
     dims = x.mesh.region.dims
+    ty = p.get("ty")
+    cont = p.get("cont")
     if name == "plane":
         if p.get("default"):
             return x.sel(dims[p["ax"]])
-        return x.sel(**{dims[p["ax"]]: centre(x, p["ax"], p["k"])})
+        return x.sel(**{dims[p["ax"]]: coord(centre(x, p["ax"], p["k"]), p.get("cty"))})
     if name == "range":
-        return x.sel(**{dims[p["ax"]]: (centre(x, p["ax"], p["lo"]), centre(x, p["ax"], p["hi"]))})
+        rng_ = [coord(centre(x, p["ax"], p["lo"]), p.get("cty")), coord(centre(x, p["ax"], p["hi"]), p.get("cty"))]
+        arg = wrap_seq(rng_, cont)
+        return checked("sel-range", [arg], lambda: x.sel(**{dims[p["ax"]]: arg}))
     if name == "block":
         if p.get("name"):
             return x[p["name"]]
         pmin = x.mesh.region.pmin
         cell = x.mesh.cell
         q1 = [float(a + o * h) for a, o, h in zip(pmin, p["offs"], cell)]
-        q2 = [float(a + (o + s) * h) for a, o, s, h in zip(pmin, p["offs"], p["sh"], cell)]
-        return x[df.Region(p1=q1, p2=q2)]
-    if name == "pad":
+        q2 = [float(a + (o + s_) * h) for a, o, s_, h in zip(pmin, p["offs"], p["sh"], cell)]
+        q1, q2 = wrap_seq(q1, cont), wrap_seq(q2, cont)
+        reg = df.Region(p1=q1, p2=q2, dims=dims)
+        before = (reg.pmin.copy(), reg.pmax.copy())
+        out = x[reg]
+        if not (np.array_equal(reg.pmin, before[0]) and np.array_equal(reg.pmax, before[1])):
+            ARG_CHANGED.append("getitem-region")
+        return out
+    if name in ("pad", "pad2"):
         kw = {}
         if p["mode"] == "constant" and p.get("cv") is not None:
-            kw["constant_values"] = p["cv"]
-        return x.pad({dims[p["ax"]]: (p["before"], p["after"])}, mode=p["mode"], **kw)
-    if name == "pad2":
-        kw = {}
-        if p["mode"] == "constant" and p.get("cv") is not None:
-            kw["constant_values"] = p["cv"]
-        return x.pad({dims[p["ax"]]: (p["before"], p["after"]), dims[p["ax2"]]: (p["before2"], p["after2"])},
-                     mode=p["mode"], **kw)
+            kw["constant_values"] = p["cv"] if ty is None else wrap_int(p["cv"], ty)
+        width = {dims[p["ax"]]: wrap_seq([wrap_int(p["before"], ty), wrap_int(p["after"], ty)], cont)}
+        if name == "pad2":
+            width[dims[p["ax2"]]] = wrap_seq([wrap_int(p["before2"], ty), wrap_int(p["after2"], ty)], cont)
+        return checked("pad-arguments", [width, kw], lambda: x.pad(width, mode=p["mode"], **kw))
     if name == "rot90":
         return x.rotate90(dims[p["a"]], dims[p["b"]], k=p["k"], inplace=bool(p.get("inplace")))
     if name == "resample":
-        return x.resample(tuple(p["sh"]))
+        arg = wrap_seq([wrap_int(v, ty) for v in p["sh"]], cont)
+        return checked("resample-n", [arg], lambda: x.resample(arg))
     if name in ("hdf5", "vtk"):
         with tempfile.TemporaryDirectory() as d:
             ext = {"hdf5": ".h5", "vtk": ".vtk"}[name]
